@@ -87,7 +87,8 @@ def _docs():
 
 DOCS = _docs()
 DOC_ORDER = ['837p', '837p_bad', '834_5010', '835', '999', '278', 'multi_isa', '834_delims']
-OPNAME = {'v': 'validate', 'c': 'context', 'x': 'xml2x12'}
+OPNAME = {'v': 'validate', 'c': 'context', 'x': 'xml2x12', 'V': 'validate[charset=B,exclude=states]', 'C': 'context[charset=B,exclude=states]'}
+VARIANT_DOCS = ('834_5010', '834_delims', '837p')       # documents with lower-case text / state codes, sensitive to the variant
 
 
 def alphabet_full():
@@ -97,6 +98,9 @@ def alphabet_full():
             for fl in ('F', 'R', 'M'):
                 evs.append((d, op, fl))
         evs.append((d, 'x', '-'))
+        if d in VARIANT_DOCS:
+            evs.append((d, 'V', 'F'))
+            evs.append((d, 'C', 'F'))
     return evs
 
 
@@ -166,6 +170,7 @@ def mask_html(text):
 
 
 def mask(op, obs):
+    op = op.lower()
     if op != 'v':
         return obs
     o = dict(obs)
@@ -260,6 +265,12 @@ def run_event(ev, ctx, xml_of):
     if op == 'x':
         return op_xml2x12(xml_of(doc))
     param = pyx12.params.params() if fl == 'F' else ctx.shared_params()
+    if op in ('V', 'C'):
+        # same document, other parameter values, always on a params object of its own
+        param = pyx12.params.params()
+        param.set('charset', 'B')
+        param.set('exclude_external_codes', 'states')
+        op = op.lower()
     if fl == 'M':
         pyx12.map_if.load_map_file = ctx.loader
     try:
@@ -340,6 +351,7 @@ def first_diff(a, b):
 
 
 def compare(op, got, want):
+    op = op.lower()
     """-> [(component, description)]"""
     out = []
     if got.get('raises') != want.get('raises'):
@@ -369,7 +381,7 @@ def baselines_for(pairs, jobs):
     All four hash seeds are run for every event; `x` events need the XML of the document's `v` event."""
     pairs = sorted(set(pairs))
     need_v = sorted(set(d for d, op in pairs if op in ('v', 'x')))
-    first = [(d, 'v') for d in need_v] + [(d, op) for d, op in pairs if op == 'c']
+    first = [(d, 'v') for d in need_v] + [(d, op) for d, op in pairs if op in ('c', 'V', 'C')]
     raw = {}
     mine = own_seed()
     seeds = tuple(SEEDS) + (() if mine in SEEDS else (mine,))
@@ -523,7 +535,7 @@ def run(R):
     nshards = max(1, min(len(seqs), core.NPROC * 8))
     shards = [seqs[i::nshards] for i in range(nshards)]
     R.pmap(work, shards)
-    R.bounds = {'documents': DOC_ORDER, 'events': nfull, 'event': 'document x {validate, context} x {fresh params, reused params, reused params+maps} + document x xml2x12',
+    R.bounds = {'documents': DOC_ORDER, 'events': nfull, 'event': 'document x {validate, context} x {fresh params, reused params, reused params+maps} + document x xml2x12 + 3 documents x {validate, context} under other parameter values (charset B, external set states excluded)',
                 'sequences_len<=2': n2, 'sequences_len3_over_24_event_subalphabet': n3,
                 'hash_seeds': list(SEEDS), 'baseline_interpreters': nbase,
                 'mutable_defaults_watched': sorted(DEFAULTS0)}
